@@ -787,6 +787,7 @@ class map_async(Stream):
     def update(self, x, who=None, metadata=None):
         if not self.work_task:
             self.work_task = self._create_work_task()
+        self._retain_refs(metadata)
         return self._create_task(self._insert_job(x, metadata))
 
     @overload
@@ -820,7 +821,7 @@ class map_async(Stream):
                 results = self._emit(result, metadata=metadata)
                 if results:
                     await asyncio.gather(*results)
-            self._release_refs(metadata)
+                self._release_refs(metadata)
 
     async def _wait_for_work_slot(self):
         while self.work_queue.full():
@@ -835,7 +836,6 @@ class map_async(Stream):
                 coro = self.func(x, *self.args, **self.kwargs)
                 task = self._create_task(coro)
                 await self.work_queue.put((task, metadata))
-            self._retain_refs(metadata)
         except Exception as e:
             logger.exception(e)
             raise
